@@ -9,6 +9,7 @@ import Xsel.Eval
 import Xsel.Store
 import Xsel.WF
 import Xsel.Json
+import Xsel.JsonText
 import Xsel.Html
 import Xsel.Xml
 import Xsel.Unmarshal
@@ -229,6 +230,18 @@ def decJTok : Sexp → Option Json.Tok
   | .list [.atom "n", .atom b] => do pure (.num (← decBits b))
   | .list [.atom "b", .atom b] => some (.bool (b == "1"))
   | _ => none
+
+/-- the inverse of `decJTok` (the answer of the `jsontext` command) -/
+def encJTok : Json.Tok → String
+  | .lbrace => "lb" | .rbrace => "rb"
+  | .lbrack => "lk" | .rbrack => "rk"
+  | .null => "null"
+  | .str s => s!"(s {encStr s})"
+  | .num n => s!"(n {Num.bitsHex n})"
+  | .bool b => s!"(b {if b then 1 else 0})"
+
+def encJToks (l : List Json.Tok) : String :=
+  "(toks" ++ String.join (l.map (fun t => " " ++ encJTok t)) ++ ")"
 
 mutual
 partial def decJVal : Sexp → Option JVal
